@@ -1126,6 +1126,8 @@ def is_blocking(node: ast.AST, parent_type: ast.AST = None) -> bool:
                     return False
                 if test:
                     return False
+            elif not isinstance(child, (ast.For, ast.While)) and any(walk(child, ast.Break)):
+                return False  # The loop can be left from inside e.g. a try or with statement
 
         if isinstance(node, ast.For):
             return False
